@@ -726,6 +726,7 @@ func runC08Typed(ctx *core.Ctx) {
 }
 
 func runC08Loads(ctx *core.Ctx) {
+	runC08Names(ctx)
 	runC08Typed(ctx)
 	runC08Meta(ctx)
 }
